@@ -3,11 +3,14 @@ package sim
 import (
 	"bytes"
 	"crypto"
+	"crypto/x509"
 	"encoding/binary"
 	"encoding/json"
 	"fmt"
 	"github.com/foxboron/go-uefi/efivar"
 	"github.com/foxboron/go-uefi/pkcs7"
+	"os"
+	"strings"
 	"sync"
 	"time"
 
@@ -32,6 +35,10 @@ type vgCfg struct {
 	// PreVerify: before anything is signed, the process verifies somebody else's SignedData that uses this digest
 	// algorithm ("sha384", "sha512"): other work the same process does with the library
 	PreVerify string `json:"pre_verify,omitempty"`
+	// Env: environment variables the process happens to run with (a build system's, a CI's): NAME=value
+	Env []string `json:"env,omitempty"`
+	// CertSlot: the caller keeps ONE certificate object and overwrites it in place when it changes signer
+	CertSlot bool `json:"cert_slot,omitempty"`
 }
 
 // vgOp produces one signed update. Several updates of one run stay alive until
@@ -219,6 +226,13 @@ func (e *varsignEngine) Gen(seed uint64, tier string, run int) *Trace {
 			c.Zone = "UTC"
 		}
 	}
+	if er := r.Fork("env"); er.Chance(1, 6) {
+		c.Env = []string{Pick(er, []string{"SOURCE_DATE_EPOCH=1700000000", "SOURCE_DATE_EPOCH=0", "TZ=Pacific/Kiritimati", "LANG=tr_TR.UTF-8", "FAKETIME=2001-01-01 00:00:00", "GODEBUG=x509negativeserial=1"})}
+		if e.tz {
+			c.Env = []string{"SOURCE_DATE_EPOCH=1700000000"}
+		}
+	}
+	c.CertSlot = !e.race && r.Fork("slot").Chance(1, 4)
 	if pr := r.Fork("pre"); pr.Chance(1, 8) {
 		c.PreVerify = Pick(pr, []string{"sha384", "sha512"})
 	}
@@ -323,6 +337,24 @@ func (e *varsignEngine) Exec(tr *Trace, x *X) {
 	if err != nil {
 		harnessf("varsign schedule: %v", err)
 	}
+	for _, kv := range c.Env {
+		if k, v, ok := strings.Cut(kv, "="); ok && k != "TZ" {
+			old, had := os.LookupEnv(k)
+			os.Setenv(k, v)
+			defer func() {
+				if had {
+					os.Setenv(k, old)
+				} else {
+					os.Unsetenv(k)
+				}
+			}()
+			x.Probe("environment_variable_set")
+		}
+	}
+	var slot *x509.Certificate
+	if c.CertSlot && c.Clients <= 1 { // (one caller at a time: overwriting the object while a call is using it would be the caller's bug)
+		slot = &x509.Certificate{}
+	}
 	if pv := inBubble(x.T, at, c.Zone, func() {
 		type alive struct {
 			i    int
@@ -346,7 +378,7 @@ func (e *varsignEngine) Exec(tr *Trace, x *X) {
 				return
 			}
 			x.Sim(now.Unix())
-			p := vgProduce(op, plane)
+			p := vgProduce(op, plane, slot)
 			m, b := vgJudge(c, op, i, p, x)
 			if b != nil {
 				live = append(live, alive{i, op, m, b, op.Op})
@@ -369,7 +401,7 @@ func (e *varsignEngine) Exec(tr *Trace, x *X) {
 							continue
 						}
 						op.Advance, op.DelayMs = 0, 0
-						prods[i] = vgProduce(op, NewPlane(nil))
+						prods[i] = vgProduce(op, NewPlane(nil), nil)
 					}
 				}()
 			}
@@ -454,12 +486,17 @@ type vgProduct struct {
 	reused      bool
 }
 
-func vgProduce(op vgOp, plane *Plane) *vgProduct {
+func vgProduce(op vgOp, plane *Plane, slot *x509.Certificate) *vgProduct {
 	p := &vgProduct{}
 	v := op.Var.Var()
 	p.payload = op.Val.Bytes()
 	payload := p.payload
 	pk := Pool()[op.Key%poolAll]
+	cert := pk.Cert
+	if slot != nil {
+		*slot = *pk.Cert // signer rotation in place: same object, new contents
+		cert = slot
+	}
 	signer := &SimSigner{inner: pk.Key, p: plane, Delay: time.Duration(op.DelayMs) * time.Millisecond, Temporary: op.FailTemporary}
 	if op.SignerFails {
 		signer.FailNext = max(1, op.FailCount)
@@ -480,7 +517,7 @@ func vgProduce(op vgOp, plane *Plane) *vgProduct {
 		switch op.Op {
 		case "SignEFIVariable":
 			if stale != nil {
-				_, mm, e2 := signature.SignEFIVariable(v, stale, signer, pk.Cert)
+				_, mm, e2 := signature.SignEFIVariable(v, stale, signer, cert)
 				p.err = e2
 				if mm != nil && e2 == nil {
 					p.keep, p.out = mm, mm.Bytes()
@@ -488,7 +525,7 @@ func vgProduce(op vgOp, plane *Plane) *vgProduct {
 				return
 			}
 			mine := &mutVal{b: append([]byte(nil), payload...), odd: op.Key%3 == 1 && op.Reuse}
-			_, mm, e2 := signature.SignEFIVariable(v, mine, signer, pk.Cert)
+			_, mm, e2 := signature.SignEFIVariable(v, mine, signer, cert)
 			p.err = e2
 			if mm != nil && e2 == nil && op.Reuse {
 				// the caller goes on working with its own object: the next update is prepared in it
@@ -519,7 +556,7 @@ func vgProduce(op vgOp, plane *Plane) *vgProduct {
 			if stale != nil {
 				m = stale
 			}
-			p.err = api.WriteSignedUpdate(v, m, signer, pk.Cert)
+			p.err = api.WriteSignedUpdate(v, m, signer, cert)
 			for _, ev := range sfs.Events {
 				if ev.Call == cWrite && len(ev.Buf) >= 4 {
 					p.out = ev.Buf[4:]
